@@ -469,6 +469,15 @@ pub fn run_t1_property(
     // pass A: every scenario up to min(1, max_dev) deviations; pass B: raise scenarios to max_dev, cheapest first, while the
     // budget allows finishing the level (the explorer itself refuses to start a level it cannot finish).
     let mut reports: Vec<Option<ExploreReport>> = (0..n).map(|_| None).collect();
+    // determinism self-check: the default execution of every scenario twice - same observations, same choice points
+    for (i, sc) in scs.iter().enumerate() {
+        let h = T1Harness { prop, sc, sc_index: i, pol: pol.clone(), judge };
+        let a = h.run(&[], &Seen::new(false));
+        let b = h.run(&[], &Seen::new(false));
+        if a.obs_hash != b.obs_hash || a.trace.len() != b.trace.len() {
+            out.machinery_errors.push(format!("scenario {} is not deterministic (two default executions differ)", sc.name));
+        }
+    }
     let total_budget = ctx.remaining().max(1.0);
     for (i, sc) in scs.iter().enumerate() {
         let share = (total_budget * 0.35) / n as f64;
